@@ -1,4 +1,4 @@
-import PytaskProofs.Lemmas.EngineProtocol
+import PytaskProofs.Lemmas.EngineInv
 /-!
 # C03 — nothing is re-executed unless something it depends on changed
 
@@ -34,5 +34,49 @@ theorem C03_history (F : BodyFn) (P : Project) (g : G) (cfg : Cfg) (s : Sess) (t
   intro v hv
   obtain ⟨h, h1, h2⟩ := h₀ v hv
   exact ⟨h, by rw [(hsame v hv).1, h1], by rw [(hsame v hv).2, h2]⟩
+
+/-- **rows_cover_neighbours.** After a protocol that ended in SUCCESS, PERSISTENCE or SKIP_UNCHANGED
+(outside a dry-run) *every* neighbour of the task in the build graph — dependencies, products of
+`after` targets, the module, all products — has a row equal to its current state. (A declaration
+style whose node missed its row would make the next build re-run the task.) -/
+theorem C03_rows_cover_neighbours (F : BodyFn) (P : Project) (cfg : Cfg) (g : G) (marks : List Nat)
+    (s : Sess) (t : TaskSpec) (hwf : WF P) (hdag : createDag P cfg = .ok (g, marks)) (ht : t ∈ P.tasks)
+    (hdry : cfg.dry = false)
+    (hgood : outcomeOf (runPhases F P g cfg s t).1 = .success ∨
+             outcomeOf (runPhases F P g cfg s t).1 = .persistence ∨
+             outcomeOf (runPhases F P g cfg s t).1 = .skipUnchanged) :
+    RowsMatch P g (protocol F P g cfg s t).w t.id :=
+  good_rowsMatch F P g cfg s t (graphOK_of_createDag hwf hdag) ht hdry hgood
+
+/-- **C03_repeat.** Let a (non-dry) build — any options, any legal schedule — report every task of
+the project as SUCCESS, PERSISTENCE or SKIP_UNCHANGED. Then *any* following build without `--force`
+on the world it left behind (no edits in between; any other options: selections, dry-run, failure
+limits; any legal schedule, i.e. any hash seed) invokes no task body and changes neither files nor
+rows. In particular an immediately repeated successful build executes nothing. -/
+theorem C03_repeat (F : BodyFn) (P : Project) (cfg1 cfg2 : Cfg) (w : World) (picks1 picks2 : List Nat)
+    (r1 r2 : Result) (hwf : WF P)
+    (h1 : build F P cfg1 w picks1 = .ok r1) (hdry : cfg1.dry = false)
+    (hall : ∀ t ∈ P.tasks, (t.id, Outcome.success) ∈ r1.reports ∨ (t.id, Outcome.persistence) ∈ r1.reports ∨
+      (t.id, Outcome.skipUnchanged) ∈ r1.reports)
+    (hforce : cfg2.force = false) (h2 : build F P cfg2 r1.w picks2 = .ok r2) :
+    r2.log = [] ∧ r2.w = r1.w := by
+  rcases build_cases h2 with ⟨hw, hl, _, _⟩ | ⟨g2, marks2, so2, so2', s2, hdag2, hso2, hloop2, hw2, hl2, _, _, _⟩
+  · exact ⟨hl, hw⟩
+  · have hrows : ∀ t ∈ P.tasks, RowsMatch P g2 r1.w t.id := by
+      intro t ht
+      rcases build_cases h1 with ⟨_, _, hr, _⟩ | ⟨g1, marks1, so1, so1', s1, hdag1, hso1, hloop1, hw1, _, hr1, _, _⟩
+      · rw [hr] at hall
+        rcases hall t ht with h | h | h <;> cases h
+      · have hgeq : g1 = g2 := by rw [(createDag_ok hdag1).1, (createDag_ok hdag2).1]
+        subst hgeq
+        have hg := graphOK_of_createDag hwf hdag1
+        rw [hw1]
+        rw [hr1] at hall
+        rcases hall t ht with h | h | h
+        · exact (final_rowsMatch hwf hg hdry hso1 hloop1 rfl _ h (Or.inl rfl)).1
+        · exact (final_rowsMatch hwf hg hdry hso1 hloop1 rfl _ h (Or.inr (Or.inl rfl))).1
+        · exact (final_rowsMatch hwf hg hdry hso1 hloop1 rfl _ h (Or.inr (Or.inr rfl))).1
+    obtain ⟨h3, h4⟩ := quiet_buildLoop F P g2 cfg2 r1.w hforce hrows picks2 so2 so2' _ s2 rfl hloop2
+    exact ⟨by rw [hl2, h4], by rw [hw2, h3]⟩
 
 end Pytask
